@@ -483,6 +483,54 @@ def open_race_probe(ctx):
             reader.close()
 
 
+def refused_then_other_probe(ctx):
+    """no schedule deadlocks, also not the one in which an operation of one handle is REFUSED by the file underneath (a write through a
+    window on a file opened read-only; a read through a crypto wrapper whose keyslot has no key yet): the other handles on that base
+    file go on working"""
+    import threading
+    from pyctr.fileio import SubsectionIO
+    from pyctr.crypto.engine import CryptoEngine
+
+    class ReadOnly(io.BytesIO):
+        def writable(self):
+            return False
+
+        def write(self, b):
+            raise io.UnsupportedOperation('write')
+    data = bytes((i * 3 + 1) & 0xFF for i in range(0x200))
+    for how in ('write-refused', 'key-missing'):
+        if how == 'write-refused':
+            base = ReadOnly(data)
+            first = lambda w=SubsectionIO(base, 0x10, 0x40): w.write(b'xyz')
+        else:
+            e = CryptoEngine(setup_b9_keys=False)
+            base = e.create_ctr_io(0x2C, io.BytesIO(data), 5)           # keyslot 0x2C has no normal key
+            first = lambda w=SubsectionIO(base, 0x10, 0x40): w.read(8)
+        other = SubsectionIO(base, 0x80, 0x40) if how == 'write-refused' else None
+        case = dict(kind='refused-then-other', how=how)
+        ctx.case(case)
+        ctx.stat('refused_then_other_probes')
+        try:
+            first()
+            refused = False
+        except Exception:
+            refused = True
+        if how == 'key-missing':
+            e.set_normal_key(0x2C, bytes(16))
+            other = SubsectionIO(base, 0x80, 0x40)
+        box = {}
+
+        def go():
+            other.seek(1)
+            box['got'] = other.read(4)
+        t = threading.Thread(target=go, daemon=True)
+        t.start()
+        t.join(3)
+        if t.is_alive() or not refused or len(box.get('got', b'')) != 4:
+            ctx.diff('oracle', f'deadlock:refused-then-other:{how}', case, 'the other handle reads on', 'blocked for ever' if t.is_alive() else repr(box.get('got')),
+                     f'after an operation of one window was refused by the file underneath ({how}), another window on the same file never returns (the shared lock was not released)')
+
+
 def instance_text(instances):
     lines = ['(* generated by harness/checks/c15.py: the programs traced from the real code in this run *)',
              'From Coq Require Import List ZArith Bool Arith.', 'Import ListNotations.', 'From Pyctr Require Import Model.Sched.', '']
@@ -526,7 +574,9 @@ def all_cases(rng, quick):
         for sel in sels:
             for rep in range(1 if quick else 3):
                 ops = gen_ops(rng, kind, sel)
-                cases.append(dict(kind=kind, sel=list(sel), ops=ops, seed=rng.randrange(1 << 30), nsched=3 if quick else 12))
+                # overlapping writes and read-backs: the outcome space is larger and a torn call shows in few of the schedules
+                many = kind in ORDER_DEPENDENT
+                cases.append(dict(kind=kind, sel=list(sel), ops=ops, seed=rng.randrange(1 << 30), nsched=(60 if many else 3) if quick else (250 if many else 12)))
     return cases
 
 
@@ -549,6 +599,7 @@ def run(ctx):
         mr.close()
         TT.uninstall()
     try:
+        refused_then_other_probe(ctx)
         open_race_probe(ctx)
     except Exception as ex:
         ctx.diff('oracle', 'harness:open-race', dict(kind='open-race'), 'probe runs', pyenv.errname(ex), f'open-race probe: {pyenv.errname(ex)}: {ex}')
